@@ -56,13 +56,10 @@ def get_truncated_taylor_series(qu_op: QubitOperator, kmax: int, t: float, contr
 
     amplified_lcu_circuit = lcu_circuit + flip_op + lcu_circuit.inverse() + flip_op + lcu_circuit
 
-    # Added gates below because current implementation applies -1j*exp(-1j*H*t) and global phase
-    # matters for controlled operations
-    # TODO: Find a way to incorporate this phase into the time propagation natively.
+    # The oblivious amplitude amplification above applies -exp(-1j*H*t). The global phase -1 matters for
+    # controlled operations: it is removed on the subspace where the control qubit(s) are set, for any number of qubits.
     if control is not None:
-        gates = [Gate("CRZ", q, control=control, parameter=np.pi/2) for q in range(qu_op_size)]
-        gates += [Gate("CPHASE", q, control=control, parameter=-np.pi/2) for q in range(qu_op_size)]
-        amplified_lcu_circuit += Circuit(gates)
+        amplified_lcu_circuit += Circuit([Gate("CRZ", 0, control=control, parameter=2*np.pi)])
 
     return amplified_lcu_circuit * rsteps
 
